@@ -309,9 +309,20 @@ def propagate(case, ctx):
             if ret is not pupil:
                 raise Violation("C04.fit.inplace_identity", "fit_tilt(inplace=True) returned a different object")
         w = lentil.Wavefront(wl, tilt=list(case["wf_tilt"])) if case["wf_tilt"] is not None else lentil.Wavefront(wl)
+        # the tilt classes take the Plane parameters too: half of the time (when nothing is fitted) the aperture
+        # itself - amplitude, OPD, (segmented) mask - rides on the first Tilt plane after a clear pupil
+        carrier = None
+        if case["ramp_repr"] in ("opd", "none") and (shape[0] + shape[1] + k) % 2 == 0:
+            carrier = next((i for i, e in enumerate(case["extras"]) if e["kind"] == "tilt_after"), None)
+        if carrier is not None:
+            ctx.tag("aperture_on_tilt_plane", "aperture_on_tilt_plane:segmented" if case["segmented"] else None)
+            pupil = lentil.Pupil(pixelscale=cm.as_ps(case["dx"]), focal_length=z)
         elems = []
-        for e in case["extras"]:
-            if e["kind"].startswith("tilt"):
+        for i, e in enumerate(case["extras"]):
+            if i == carrier:
+                elems.append((e["kind"], lentil.Tilt(x=e["x"], y=e["y"], amplitude=case["amp"].copy(), opd=opd_in.copy(),
+                                                     mask=mask_arg.copy(), pixelscale=cm.as_ps(case["dx"]))))
+            elif e["kind"].startswith("tilt"):
                 elems.append((e["kind"], lentil.Tilt(x=e["x"], y=e["y"])))
             else:
                 elems.append((e["kind"], lentil.DispersiveTilt(trace=e["trace"], dispersion=e["dispersion"])))
@@ -604,8 +615,14 @@ def history(case, ctx):
         plane = lentil.Pupil(amplitude=case["amp"].copy(), opd=case["opd"].copy(), mask=mask_arg.copy(),
                              pixelscale=dx, focal_length=z)
     cur_opd_model = case["opd"].copy()          # what plane.opd should hold now (inside the mask)
-    for st_ in case["steps"]:
+    kept = []         # wavefronts formed along the way: later in-place work on the plane must not reach them
+    for si, st_ in enumerate(case["steps"]):
         op = st_["op"]
+        if len(kept) < 2 and (n_fit >= 1 or si == 0):
+            with lentil_call("C04.history.keep", "multiply + propagate_dft (kept wavefront)"):
+                wk = lentil.Wavefront(wl) * plane
+                fk = lentil.propagate_dft(wk, pixelscale=du, shape=tuple(case["out_shape"]), oversample=os_).field
+            kept.append((wk, fk, si))
         with lentil_call("C04.history." + op, op):
             if op == "ramp":
                 r = ramp(shape, dx, st_["x"], st_["y"]) * union
@@ -658,3 +675,11 @@ def history(case, ctx):
             w = w * t
         out = lentil.propagate_dft(w, pixelscale=du, shape=tuple(case["out_shape"]), oversample=os_)
     check_tilted_output("C04.history", out, segs, full, full, pm.alpha(dx, du, wl, z, os_), extra_tol=4.0)
+    for wk, fk, si in kept:
+        with lentil_call("C04.history.keep", "propagate_dft of a wavefront formed earlier"):
+            again = lentil.propagate_dft(wk, pixelscale=du, shape=tuple(case["out_shape"]), oversample=os_).field
+        if again.shape != fk.shape or cm.max_abs(again - fk) > 1e-12 * max(cm.max_abs(fk), 1e-300):
+            ops_ = [s_["op"] for s_ in case["steps"]]
+            raise Violation("C04.history.kept_wavefront",
+                            f"a wavefront formed before step {si} propagates differently after the later in-place work on "
+                            f"the plane [{' '.join(ops_[:si])} | {' '.join(ops_[si:])}]")
